@@ -514,6 +514,7 @@ def generate(ctx):
     for kind, ms in by_kind.items():
         multi = [x for x in ms if len(x[1]['t'][0]) >= 2]
         specs = focus(kind) + [{'syn': {'kind': kind, 'sig': s}} for s in SYN[kind]]
+        nfocus = len(specs)
         if thorough:
             seen = {DC.label(s) for s in specs}
             specs += [s for s in DC.catalogue(kind) if DC.label(s) not in seen
@@ -524,10 +525,11 @@ def generate(ctx):
             e0, err = guarded(lambda: DC.build_element(spec), 30)
             heavy = bool(err) or sum(DC.signature(e0).values()) > 12
             cand = [x for x in multi if len(x[1]['t'][0]) <= (8 if heavy else 30)] or multi
-            nm = min(len(cand), 5 if thorough else 2)
+            core = q < nfocus                    # thorough: the named elements deepest, the rest of the catalogue lighter
+            nm = min(len(cand), (5 if core else 3) if thorough else 2)
             for a in range(nm):
                 fam, mrec = cand[(q + a * 3) % len(cand)]
-                recs.append(recipe(rng, fam, mrec, spec, depth))
+                recs.append(recipe(rng, fam, mrec, spec, depth if (core or not thorough) else 2))
         # translated / scaled copies (exact in floating point): far from the origin relative to the cell size
         # (about 5e5 with h = 1; about 1e3 with h = 2^-10), and ordinary scaled ones
         plain = [x for x in multi if x[1].get('scale', 1) == 1 and x[1].get('order', 1) == 1 and len(x[1]['t'][0]) <= 12]
